@@ -4,6 +4,7 @@ import (
 	"context"
 	"grog/internal/config"
 	"grog/internal/console"
+	"grog/internal/verifhook"
 	"io"
 	"os"
 	"path/filepath"
@@ -46,6 +47,9 @@ func (fsc *FileSystemCache) Get(ctx context.Context, path, key string) (io.ReadC
 
 	filePath := fsc.buildFilePath(path, key)
 
+	if err := verifhook.Fault("fs.get", path, key); err != nil {
+		return nil, err
+	}
 	file, err := os.Open(filePath)
 	if err != nil {
 		logger.Tracef("Failed to get file for path: %s, key: %s", path, key)
@@ -63,11 +67,16 @@ func (fsc *FileSystemCache) Set(ctx context.Context, path, key string, content i
 	filePath := fsc.buildFilePath(path, key)
 	destinationDirectory := filepath.Dir(filePath)
 
+	if err := verifhook.Fault("fs.set", path, key); err != nil {
+		return err
+	}
+	verifhook.Point("fs.set.mkdir", path, key)
 	// Make sure the destination directory exists. Keys can include path separators.
 	if err := os.MkdirAll(destinationDirectory, 0755); err != nil {
 		return err
 	}
 
+	verifhook.Point("fs.set.tmp", path, key)
 	// Write to a temp file first to ensure atomicity
 	tmpFile, err := os.CreateTemp(destinationDirectory, "tmp-*")
 	if err != nil {
@@ -75,17 +84,21 @@ func (fsc *FileSystemCache) Set(ctx context.Context, path, key string, content i
 	}
 	defer os.Remove(tmpFile.Name()) // Cleanup temp file if rename fails
 
+	verifhook.Point("fs.set.copy", path, key)
 	// Copy the content from the reader to the file
 	if _, err = io.Copy(tmpFile, content); err != nil {
 		tmpFile.Close()
 		return err
 	}
 
+	verifhook.Point("fs.set.copied", path, key)
 	// Close explicitly before rename
 	if err := tmpFile.Close(); err != nil {
 		return err
 	}
 
+	verifhook.Point("fs.set.rename", path, key)
+	defer verifhook.Point("fs.set.done", path, key)
 	return os.Rename(tmpFile.Name(), filePath)
 }
 
@@ -111,6 +124,9 @@ func (fsc *FileSystemCache) Exists(ctx context.Context, path, key string) (bool,
 
 	filePath := fsc.buildFilePath(path, key)
 
+	if err := verifhook.Fault("fs.exists", path, key); err != nil {
+		return false, err
+	}
 	_, err := os.Stat(filePath)
 	if err != nil {
 		if os.IsNotExist(err) {
